@@ -56,7 +56,9 @@ def _wild(draw):
     return {"cls": "wild", "shot": spec, "config": cfg, "R": R, "step": R / draw(st.integers(1, 20)),
             "extra": draw(st.booleans()), "ts": draw(st.sampled_from([0.0, 0.0, 0.1, 1.0])),
             # history: the calculator may have computed a shot from another station altitude before
-            "used_before_alt": draw(st.one_of(st.none(), st.floats(-1000.0, 12000.0)))}
+            "used_before_alt": draw(st.one_of(st.none(), st.floats(-1000.0, 12000.0))),
+            # one case in three also runs under the line watch (loops that never reach the next integration step)
+            "watched": draw(st.integers(0, 2)) == 0}
 
 
 @st.composite
@@ -102,9 +104,14 @@ def check(case):
         lax_shot = build.shot(spec)
         _, LaxExceeded = build.counting(lax_shot.atmo, int(40 * case["R"] / (cfg.get("max_calc_step_size_feet", 0.5) / 2)) + 100000)
         try:
-            tr, terr = build.trace(build.calculator(lax), lax_shot, case["R"])
+            with build.LineWatch(lambda: lax_shot.atmo._vf_calls, arm_after_s=10.0) as lw:
+                tr, terr = build.trace(build.calculator(lax), lax_shot, case["R"])
         except LaxExceeded:
             r.label("out-of-domain:lax-trace-too-long")
+            return r
+        except build.NoProgress as e:
+            r.bad("C04:does-not-terminate:no-progress", f"{lw.limit} source lines executed after integration step {lax_shot.atmo._vf_calls} without reaching "
+                  f"the next one, still running at {e} (step trace over {case['R']!r} ft, config {lax})")
             return r
         if len(tr) < 10:
             return r
@@ -137,8 +144,12 @@ def check(case):
         build.fire(calc, build.shot(other), 60.0, 30.0)
         r.label("calculator-used-before")
     err = None
+    # loops that never reach the next integration step: one case in three counts lines from the start, the others only
+    # once the call has been running for 5 s
+    watch = build.LineWatch(lambda: atmo_obj._vf_calls, arm_after_s=None if (case.get("watched") and est <= 2e5) else 5.0)
     try:
-        hit = calc.fire(sh, D.Foot(case["R"]), D.Foot(case["step"]), extra_data=case["extra"], time_step=case["ts"])
+        with watch:
+            hit = calc.fire(sh, D.Foot(case["R"]), D.Foot(case["step"]), extra_data=case["extra"], time_step=case["ts"])
         rows = list(hit.trajectory)
     except pb.RangeError as e:
         err = e
@@ -146,6 +157,12 @@ def check(case):
     except Exceeded:
         r.bad("C04:does-not-terminate:step-budget", f"more than {budget} solver steps (range {case['R']!r} ft, config {cfg})")
         return r
+    except build.NoProgress as e:
+        r.bad("C04:does-not-terminate:no-progress", f"{watch.limit} source lines executed after integration step {atmo_obj._vf_calls} without reaching "
+              f"the next one, still running at {e} (range {case['R']!r} ft, step {case['step']!r} ft, config {cfg})")
+        return r
+    if watch.armed:
+        r.label("line-watched" if watch.arm_after_s is None else "line-watched-after-5s")
     steps = atmo_obj._vf_calls
     r.info["steps"] = steps
     r.target = steps / budget
@@ -199,8 +216,13 @@ def check(case):
     sh2 = build.shot(spec)
     atmo2, Exceeded2 = build.counting(sh2.atmo, budget * 2)
     try:
-        hit2 = build.calculator(relaxed).fire(sh2, D.Foot(case["R"]), D.Foot(case["step"]), extra_data=case["extra"], time_step=case["ts"])
+        with build.LineWatch(lambda: atmo2._vf_calls, arm_after_s=10.0) as lw2:
+            hit2 = build.calculator(relaxed).fire(sh2, D.Foot(case["R"]), D.Foot(case["step"]), extra_data=case["extra"], time_step=case["ts"])
         rows2 = list(hit2.trajectory)
+    except build.NoProgress as e:
+        r.bad("C04:does-not-terminate:no-progress", f"{lw2.limit} source lines executed after integration step {atmo2._vf_calls} without reaching "
+              f"the next one, still running at {e} (range {case['R']!r} ft, step {case['step']!r} ft, config {relaxed})")
+        return r
     except pb.RangeError as e2:
         rows2 = list(e2.incomplete_trajectory)
     except Exceeded2:
